@@ -271,3 +271,99 @@ func nestedPrograms() []progSpec {
 	}
 	return out
 }
+
+// ---------------------------------------------------------------------------------------------
+// systematic family: every kind of constant list x every kind of run-time consumer.
+//
+// The hand-written templates above pair a few constants with a few consumers. Two independently
+// written breaking changes (seeded S10A: `list ~ list` edits its left operand; S10B: the countdown of
+// top() hoisted into the shared lazy list) needed pairs that were not among them, so this family
+// enumerates the product. The constant is built without the argument (the optimizer folds it into
+// ONE object shared by all evaluations); the consumer runs at run time inside a closure that also
+// receives the argument (a method call on a constant with constant arguments would be folded).
+
+var constStages = []struct{ name, expr string }{
+	{"literal", "[2,4,6,8]"},
+	{"map", "[1,2,3,4].map(e->e*2)"},
+	{"accept", "[2,3,4,5,6,8].accept(e->e%2=0)"},
+	{"top", "[2,4,6,8,10].top(4)"},
+	{"top-lazy", "numbers(10).map(e->e*2+2).top(4)"},
+	{"skip", "[0,2,4,6,8].skip(1)"},
+	{"top-skip", "numbers(10).map(e->e*2).skip(1).top(4)"},
+	{"append", "[2,4,6].append(8)"},
+	{"concat", "[2,4]+[3,4].map(e->e*2)"},
+	{"reverse", "[8,6,4,2].reverse()"},
+	{"order", "[6,2,8,4].order(e->e)"},
+	{"combine", "[1,1,3,3,5].combine((x,y)->x+y)"},
+	{"combine3", "[0,1,1,2,3,3].combine3((x,y,z)->x+y+z)"},
+	{"combineN", "[1,1,3,3,5].combineN(2,l->l[0]+l[1])"},
+	{"number", "[2,3,4,5].number((n,e)->n+e)"},
+	{"compact", "[2,2,4,6,6,8].compact((x,y)->x=y)"},
+	{"cross", "[2,6].cross([0,2],(x,y)->x+y)"},
+	{"merge", "[2,6].merge([4,8],(x,y)->x<y)"},
+	{"iir", "[2,2,2,2].iir(e->e,(e,l)->e+l)"},
+	{"iirCombine", "[2,2,2,2].iirCombine(e->e,(x,xl,yl)->yl+x)"},
+	{"movingWindow", "[2,4,6,8].movingWindow(e->e).map(l->l.last())"},
+	{"replaceList", "[1,2,3,4].replaceList(l->l.map(e->e*2))"},
+	{"eval", "[1,2,3,4].map(e->e*2).eval()"},
+	{"mapReduce", "[2,4,6,8].mapReduce([],(s,e)->s.append(e))"},
+	{"map-member", "{l:[1,2,3,4].map(e->e*2)}.l"},
+	{"nested", "[[2,4,6,8].map(e->e)][0]"},
+	{"numbers", "numbers(5).skip(1).map(e->e*2)"},
+}
+
+// consumers: body of (l,k)->…; l is the shared constant, k the argument
+var constConsumers = []struct{ name, body string }{
+	{"index", "l[k]"},
+	{"first", "l.first()+k"},
+	{"last", "l.last()+k"},
+	{"single", "try l.single() catch k"},
+	{"size", "l.size()+k"},
+	{"sum", "l.sum()+k"},
+	{"string", "l.string()+k"},
+	{"self", "if k=0 then l else l.top(k)"},
+	{"map", "l.map(e->e+k)"},
+	{"accept", "l.accept(e->e>k)"},
+	{"reduce", "l.reduce((x,y)->x+y)+k"},
+	{"top", "l.top(k)"},
+	{"skip", "l.skip(k)"},
+	{"append", "l.append(k)"},
+	{"append2", "[l.append(k), l.append(k+1)]"},
+	{"concat-left", "l+[k]"},
+	{"concat-right", "[k]+l"},
+	{"equal", "l=[2,4,6,8+k]"},
+	{"equal-right", "[2,4,6,8+k]=l"},
+	{"in", "(k*2+2)~l"},
+	{"all-in-left", "[4,2+k]~l"},
+	{"all-in-right", "l~[8,6,4,2,k]"},
+	{"all-in-self", "l~l.map(e->e+k-k)"},
+	{"indexWhere", "l.indexWhere(e->e>k*2)"},
+	{"present", "l.present(e->e>k*4)"},
+	{"minMax", "l.minMax(e->e+k)"},
+	{"order", "l.orderRev(e->e+k)"},
+	{"reverse", "l.reverse().first()+k"},
+	{"set", "l.set(k,0)"},
+	{"combine", "l.combine((x,y)->x+y+k)"},
+	{"cross", "[k].cross(l,(x,y)->x+y)"},
+	{"cross-self", "l.cross(l,(x,y)->x*10+y+k).top(5)"},
+	{"merge", "l.merge([k],(x,y)->x<y)"},
+	{"zip-twice", "[l.sum(),l.size(),l.first()+k]"},
+	{"sum-then-index", "l.sum()+l[k]"},
+	{"half", "l.map(e->if e>4+k then throw(\"late\") else e)"},
+	{"closure", "i->l[i+k]"},
+	{"multiUse", "l.multiUse({s:x->x.sum(),n:x->x.size()+k})"},
+	{"switch", "switch l case [2,4,6,8+k]: 1 default 0"},
+	{"visit", "l.visit(k,(s,e)->s+e)"},
+	{"fsm", "l.fsm((s,e)->goto(s.state+1)).last().state+k"},
+}
+
+func constProductPrograms() []progSpec {
+	var out []progSpec
+	for _, s := range constStages {
+		for _, c := range constConsumers {
+			out = append(out, progSpec{ID: "P/" + s.name + "/" + c.name, Family: "P-const-stage-x-consumer",
+				Src: "let c=" + s.expr + "; let f=(l,k)->" + c.body + "; f(c,a)"})
+		}
+	}
+	return out
+}
